@@ -16,7 +16,7 @@ numbers; fragments are plain data afterwards.
 
 CONS = 'bdfgklmnprstv'
 VOWS_ASCII = 'aeiou'
-VOWS_ALL = 'aeiouäжøï'
+VOWS_ALL = 'aeiouäжøï𝒶'      # incl. one letter outside the BMP (4 UTF-8 bytes)
 # start / end markers: they occur nowhere else in a word, hence no word is a
 # substring of another; non-ASCII ones put multi-byte characters at the very
 # first / last position of a flagged word
